@@ -6,7 +6,7 @@ order.  Programs are behaviours of specs/ProgGen.tla replayed into the real buil
 
 import random
 
-from . import gen, progs, tlc
+from . import exprs, gen, progs, tlc
 from .common import sample
 from .gen import CMP, C, S, V, acall, assign, if_, yield_
 
@@ -114,8 +114,68 @@ def judge(chk, cases, label):
     return bad
 
 
+def design_level(chk):
+    """Builder.tla: the as-coded dependency algorithm satisfies the schedule contract over an abstract alphabet
+    (exhaustive); the same abstract programs are replayed into the real builder and the edges compared (drift)."""
+    depth = 3 if chk.quick else 4
+    cfg = tlc.temp_cfg('CONSTANTS\n Depth = %d\n Vars = {"a", "b", "s"}\n PersVars = {"s"}\n WAR = TRUE\nINIT Init\nNEXT Next\n'
+                       'CHECK_DEADLOCK FALSE\nINVARIANT ScheduleIndependence\nINVARIANT FenceOrder\nINVARIANT EdgesBackwards\n'
+                       'INVARIANT Dump\n' % depth)
+    res = tlc.run_tlc("Builder", cfg=cfg, timeout=3000)
+    chk.add_tlc(res)
+    if res.violated:
+        chk.violation("C02:design:%s" % res.violated, "as-coded builder model violates %s" % res.violated, {"cfg": "Builder"},
+                      "\n".join(h for h, _b in res.error_trace()))
+    # conformance of the model's edges with the real builder
+    name = {"a": "a", "b": "b", "s": "<state>s"}
+    drift = []
+    nprog = 0
+    for prog in res.json_lines("GEN"):
+        nprog += 1
+        from dagrt.language import CodeBuilder
+        cb = CodeBuilder("p0")
+        stack = []          # open context managers, with the flag statement index they belong to
+        for k, st in enumerate(prog, 1):
+            guard = [tuple(g) for g in st["guard"]]
+            # close / open blocks so that the builder's condition stack equals the model's guard
+            while [g for g, _cm in stack] != guard[:len(stack)] or len(stack) > len(guard):
+                _g, cm = stack.pop()
+                cm.__exit__(None, None, None)
+            for g in guard[len(stack):]:
+                if g[1]:
+                    raise AssertionError("flag statement must precede its block")
+                cm = cb.else_()
+                cm.__enter__()
+                stack.append((g, cm))
+            rhs = exprs.from_json(["sum", [["v", name[r]] for r in sorted(st["reads"])] + [["c", 1]]])
+            if st["kind"] == "flag":
+                cm = cb.if_(exprs.from_json(["cmp", ">", ["sum", [["v", name[r]] for r in sorted(st["reads"])] + [["c", 0]]], ["c", 0]]))
+                cm.__enter__()
+                stack.append(((k, True), cm))
+            elif st["kind"] == "assign":
+                cb.assign(exprs.from_json(["v", name[sorted(st["writes"])[0]]]), rhs)
+            elif st["kind"] == "yield":
+                cb.yield_state(rhs, "c", exprs.from_json(["c", 0]), "final")
+            else:
+                cb.fail_step()
+        real = list(cb.statements)
+        index = {s_.id: i + 1 for i, s_ in enumerate(real)}
+        if len(real) != len(prog):
+            drift.append({"program": prog, "why": "statement count"})
+            continue
+        for i, (st, rs) in enumerate(zip(prog, real), 1):
+            if sorted(index[d] for d in rs.depends_on) != sorted(st["deps"]):
+                drift.append({"program": prog, "stmt": i, "model": sorted(st["deps"]),
+                              "real": sorted(index[d] for d in rs.depends_on)})
+                break
+    return {"spec": "Builder.tla", "depth": depth, "distinct_states": res.distinct, "generated": res.generated,
+            "programs_compared_with_real_builder": nprog, "edge_drift": drift[:3], "impl_model_conformant": not drift}
+
+
 def run(chk):
     rng = random.Random(chk.seed)
+    des = design_level(chk)
+    chk.stage("design_level")
     alpha = alphabet(chk.tier)
     depth = 3 if chk.quick else 4
     programs, res = gen.tlc_programs(alpha, depth, chk=chk)
@@ -154,6 +214,7 @@ def run(chk):
         "programs_sampled": len(programs) - n_exh - n_sim,
         "programs_with_violation": len(bad),
         "traces_validated_against_impl": len(cases),
+        "design_model": des, "impl_model_conformant": des["impl_model_conformant"],
         "samples": sample([progs.show_prog(c["calls"]) for c in cases], 6),
     })
     chk.assumptions += [
